@@ -116,7 +116,9 @@ def rule_grammar(ctx: Ctx, rep: Report) -> None:
     tree_only = any(isinstance(c, ast.Call) and call_name(c) == "_assert_position" and any(VX.has(v, "_assert_position($$n, $$c, (_P2TR,))") for v in vxe.value_of(c))
                     and any("name in _TREE_FUNCTIONS" in t and pol for t, pol in gpe.facts_at_ast(c)) for c in own_nodes(pe.node))
     rep.ob(rule, "tree_functions_in_tr_only", tree_only, pe.where(), "multi_a / sortedmulti_a only inside tr()")
-    rep.ob(rule, "miniscript_contexts", ctx.const(DS, "_TREE_FUNCTIONS") == ("multi_a", "sortedmulti_a") and "name not in _PARSERS and context in _MINISCRIPT_CONTEXTS" in txt, pe.where(), "other names are miniscript only inside wsh() or a tr() leaf")
+    rep.ob(rule, "miniscript_contexts", ctx.const(DS, "_TREE_FUNCTIONS") == ("multi_a", "sortedmulti_a") and any(isinstance(c, ast.Call) and call_name(c) == "_parse_miniscript_expression"
+                                                                                                   and any("_PARSERS" in t and ((" not in " in t and pol) or (" not in " not in t and " in " in t and not pol)) for t, pol in gpe.facts_at_ast(c))
+                                                                                                   and any("_MINISCRIPT_CONTEXTS" in t and " in " in t and pol for t, pol in gpe.facts_at_ast(c)) for c in own_nodes(pe.node)), pe.where(), "other names are miniscript only inside wsh() or a tr() leaf")
     rep.ob(rule, "unknown_function_refused", any(c.op == "not in" and c.subject == "name" for c in refusal_constraints(ctx, pe)), pe.where(), "an unknown function is refused")
     ap = ctx.func(f"{DS}._assert_position")
     rep.ob(rule, "_assert_position", any(c.op == "not in" and c.subject == "context" for c in refusal_constraints(ctx, ap)), ap.where(), "a function outside its allowed contexts is refused")
